@@ -63,6 +63,8 @@ int lbuf_search(struct lbuf *lb, char *kw, int dir, int *r, int *o, int *len)
 		int off = dir > 0 && r0 == i ? uc_chr(s, o0 + 1) - s : 0;
 		/* search from off, but let anchors and word boundaries see the whole line */
 		while (rstr_findat(re, s, off, 1, offs, 0) >= 0) {
+			if (!s[offs[0]])	/* after the line's newline */
+				break;
 			if (dir < 0 && r0 == i && uc_off(s, offs[0]) >= o0)
 				break;
 			found = 1;
